@@ -173,6 +173,9 @@ class AdaptiveAdapter(Adapter):
                     h.fill_n(np.array([p[0] for p in pts], dtype=float), weights=w)
                 else:
                     h.fill_n(np.array(pts, dtype=float).reshape(-1, dim), weights=w)
+            elif action == "SliceA":
+                i, a, b, k = args
+                o[k] = o[i][int(a):int(b)]
             elif action == "FillRefused":
                 i, k, how = args
                 h = o[i]
@@ -315,7 +318,8 @@ class AdaptiveAdapter(Adapter):
             if rec.get("proj") is not None:
                 grids = [self._g(rec["proj"] - 1)]
             try:
-                self._cmp(real[i], rec, view, bad, det, str(i), [self._g(ax["grid"] - 1) for ax in rec["axes"]])
+                v_ = view - {"missed", "adaptive"} if rec.get("sliced") else view      # a selection: neither adaptive nor free of under/overflow
+                self._cmp(real[i], rec, v_, bad, det, str(i), [self._g(ax["grid"] - 1) for ax in rec["axes"]])
                 gh = fmap(post["ghost"])[i]
                 if "stats" in view and self.stats_cls and len(rec["axes"]) == 1 and gh and ("untracked",) not in gh and self.wden == 1:
                     g = self._g(rec["axes"][0]["grid"] - 1)
